@@ -3,7 +3,7 @@ package main
 func init() {
 	props["C16"] = &Prop{
 		ID: "C16", PkgDir: "interp", PkgPath: interpPath, PkgName: "interp",
-		Harness:    []string{"interp_common.go", "C16.go", "C16_import.go"},
+		Harness: []string{"interp_common.go", "C16.go", "C16_import.go"},
 		Redirects: map[string]string{
 			"(*" + interpPath + ".Interpreter).parse": "vmImpParse", "(*" + interpPath + ".Interpreter).ast": "vmImpAst", "(*" + interpPath + ".Interpreter).gta": "vmImpGta",
 			"(*" + interpPath + ".Interpreter).gtaRetry": "vmImpGtaRetry", "(*" + interpPath + ".Interpreter).cfg": "vmImpCfg",
